@@ -276,14 +276,39 @@ def _tail(ch, cx, q, p, m, b, j, memo={}):
 
 
 # --------------------------------------------------------------------------------------------------------------
+class Grammar:
+    """a set of productions (reference grammar from spec/grammar_ref.json, or the checked tables' own)"""
+
+    def __init__(self, prods):
+        self.prods = [None] + [{"name": p["name"], "prod": tuple(p["prod"]), "len": len(p["prod"])} for p in prods]
+        self.nonterms = sorted({p["name"] for p in self.prods[1:]})
+        self.by_lhs = {}
+        for i, p in enumerate(self.prods):
+            if i:
+                self.by_lhs.setdefault(p["name"], []).append(i)
+        self.kinds = {i: kind_of(p) for i, p in enumerate(self.prods) if i}
+
+    @classmethod
+    def reference(cls):
+        import json
+        import os
+        path = os.path.join(os.path.dirname(os.path.dirname(os.path.abspath(__file__))), "spec", "grammar_ref.json")
+        return cls(json.load(open(path))["productions"])
+
+    @classmethod
+    def of_tables(cls, T):
+        return cls([{"name": p["name"], "prod": p["prod"]} for p in T.prods[1:]])
+
+
 class Cfg:
     """derivability in the grammar itself (productions as written in the rule docstrings), with the operator-table
     filters on parent/child kinds: D(A, kind, right_open, i, j).  An expression is RIGHT-OPEN when its right edge is an
     unparenthesised lambda or conditional expression ("extend as far to the right as possible"): such an expression
     cannot be the leftmost operand of a binary operator, suffix, index or conditional."""
 
-    def __init__(self, cx, ch, filters=True):
+    def __init__(self, cx, ch, filters=True, grammar=None):
         self.cx, self.ch = cx, ch
+        self.G = grammar if grammar is not None else Grammar.reference()
         self.memo = {}
         self.busy = set()
         self.defs = []
@@ -292,7 +317,7 @@ class Cfg:
     def kinds_for(self, A):
         if A != 'expression':
             return [None]
-        return sorted({self.cx.kinds[p] for p in self.cx.T.by_lhs['expression']}, key=str)
+        return sorted({self.G.kinds[p] for p in self.G.by_lhs['expression']}, key=str)
 
     def bad(self, parent, side, ck):
         if not self.filters:
@@ -310,11 +335,11 @@ class Cfg:
         if key in self.busy:
             return None
         self.busy.add(key)
-        T = self.cx.T
+        T = self.G
         alts = []
         for p in T.by_lhs.get(A, []):
             if A == 'expression':
-                k = self.cx.kinds[p]
+                k = self.G.kinds[p]
                 if k != kind:
                     continue
                 if k[0] in ('lambda', 'ifexpr'):
@@ -353,7 +378,7 @@ class Cfg:
         key = ('seq', p, m, i, j, last_ro)
         if key in self.memo:
             return self.memo[key]
-        T = self.cx.T
+        T = self.G
         rhs = T.prods[p]["prod"]
         n = len(rhs)
         if m == n:
@@ -369,7 +394,7 @@ class Cfg:
                         leftmost_operand = (m == 0 and T.prods[p]["name"] == 'expression' and n > 1) or \
                                            (m + 1 < n and rhs[m + 1] == 'LBRACKET')
                         if T.prods[p]["name"] == 'expression':
-                            parent = self.cx.kinds[p]
+                            parent = self.G.kinds[p]
                             side = 'left' if m == 0 else 'right'
                             if parent[0] in ('suffix', 'index') and m != 0:
                                 allowed = (lambda ck: True)
@@ -404,7 +429,7 @@ class Cfg:
 
 
 def q_completeness(cx, excludes):
-    """every token string the grammar derives (with a tree that respects the operator table) is accepted"""
+    """every token string the REFERENCE grammar (spec/grammar_ref.json) derives with a tree that respects the operator table is accepted"""
     ch = lrc.Chart(cx.T, cx.L, alphabet=cx.alpha)
     acc = ch.accept()
     g = Cfg(cx, ch)
@@ -423,7 +448,7 @@ def q_completeness(cx, excludes):
 
 
 def q_soundness(cx, excludes):
-    """every accepted token string is derivable in the grammar (sanity of the tables against the productions)"""
+    """every accepted token string is derivable in the REFERENCE grammar (spec/grammar_ref.json): nothing outside the published grammar is accepted"""
     ch = lrc.Chart(cx.T, cx.L, alphabet=cx.alpha)
     acc = ch.accept()
     g = Cfg(cx, ch, filters=False)          # plain CFG derivability
